@@ -13,7 +13,7 @@ use nomt_core::proof::{
     verify_multi_proof, verify_multi_proof_update, verify_update, MultiPathProof, MultiProof, PathProof,
     PathProofTerminal, PathUpdate,
 };
-use nomt_core::trie::{LeafData, Node, TERMINATOR};
+use nomt_core::trie::{InternalData, LeafData, Node, TERMINATOR};
 use nomt_core::trie_pos::TriePosition;
 use serde_json::{json, Value};
 use std::collections::{BTreeMap, BTreeSet};
@@ -432,6 +432,125 @@ fn rdesc(r: &Result<Node, String>) -> String {
 impl ProofX {
     /// Wide multi-proofs: almost all of a 20-key family present, every family key queried (so the
     /// proof has up to 20 terminals), every write set of one or two operations anywhere.
+
+    /// A multi-proof with more than 65 536 siblings: a complete trie of 2^18 leaves (keys = every
+    /// 17-bit prefix), every 8th key proven (32 768 path proofs aggregated), verified, queried, and
+    /// updated at a few keys (write, delete, write) against the reference root. `panic_only`: C18's
+    /// use (verdicts only, no oracle).
+    fn run_huge(&mut self, panic_only: bool) -> Outcome {
+        let mut out = Outcome::default();
+        out.nontrivial = true;
+        const D: usize = 18;
+        let n = 1usize << D;
+        let key_of = |i: usize| -> Key {
+            let mut k = [0u8; 32];
+            let v = (i as u32) << (32 - D);
+            k[..4].copy_from_slice(&v.to_be_bytes());
+            k
+        };
+        let leaves: Vec<(Key, Vh)> = (0..n).map(|i| (key_of(i), vh(i % 251, 0))).collect();
+        // node table, level D = leaves
+        let mut levels: Vec<Vec<Node>> = vec![vec![]; D + 1];
+        levels[D] = leaves.iter().map(|(k, v)| H::hash_leaf(&LeafData { key_path: *k, value_hash: *v })).collect();
+        for d in (0..D).rev() {
+            let below = &levels[d + 1];
+            levels[d] = (0..1usize << d).map(|j| H::hash_internal(&InternalData { left: below[2 * j], right: below[2 * j + 1] })).collect();
+        }
+        let root = levels[0][0];
+        let picks: Vec<usize> = (0..n).step_by(8).collect();
+        let proofs: Vec<PathProof> = picks
+            .iter()
+            .map(|&i| PathProof {
+                terminal: PathProofTerminal::Leaf(LeafData { key_path: leaves[i].0, value_hash: leaves[i].1 }),
+                siblings: (1..=D).map(|d| levels[d][(i >> (D - d)) ^ 1]).collect(),
+            })
+            .collect();
+        self.calls += 1;
+        let r = guarded(|| {
+            let mp = MultiProof::from_path_proofs(proofs.clone());
+            let nsib = mp.siblings.len();
+            let verified = verify_multi_proof::<H>(&mp, root);
+            (nsib, verified)
+        });
+        let (nsib, verified) = match r {
+            Err(m) => {
+                out.violation = Some(v("panic:huge-multi-proof", format!("building / verifying a multi-proof of {} paths panicked: {m}", picks.len())));
+                return out;
+            }
+            Ok(x) => x,
+        };
+        if nsib > 65535 {
+            out.goals.push("multi-proof-with-more-than-65535-siblings");
+        }
+        out.transitions += 1;
+        let verified = match verified {
+            Ok(vm) => vm,
+            Err(e) => {
+                if !panic_only {
+                    out.violation = Some(v("multi-verify-honest", format!("the honest multi-proof of {} paths ({nsib} siblings) does not verify: {e:?}", picks.len())));
+                }
+                return out;
+            }
+        };
+        // queries at the ends and around the 16-bit boundary of the sibling offsets
+        for &i in &[0usize, 8, picks[picks.len() / 2], picks[picks.len() - 1], 5, n - 1] {
+            let leaf = LeafData { key_path: leaves[i].0, value_hash: leaves[i].1 };
+            let r = guarded(|| (verified.confirm_value(&leaf), verified.confirm_nonexistence(&leaf.key_path)));
+            self.calls += 2;
+            match r {
+                Err(m) => {
+                    out.violation = Some(v("panic:huge-multi-proof", format!("confirm_* on the {nsib}-sibling multi-proof panicked: {m}")));
+                    return out;
+                }
+                Ok((cv, cn)) => {
+                    let proven = i % 8 == 0;
+                    let ok = if proven { matches!(cv, Ok(true)) && matches!(cn, Ok(false)) } else { cv.is_err() && cn.is_err() };
+                    if !ok && !panic_only {
+                        out.violation = Some(v("multi-confirm", format!("{nsib}-sibling multi-proof, key #{i} (proven: {proven}): confirm_value={cv:?} nonexistence={cn:?}")));
+                        return out;
+                    }
+                }
+            }
+        }
+        // updates: first, a key beyond the 16-bit offset boundary, the last; write / delete / write
+        let targets = [picks[0], picks[picks.len() * 63 / 64], picks[picks.len() - 1]];
+        for wset in [vec![0usize], vec![1], vec![2], vec![0, 1, 2]] {
+            let ops: Vec<(Key, Option<Vh>)> = wset.iter().map(|&w| (leaves[targets[w]].0, if w == 1 { None } else { Some(vh(7, 1)) })).collect();
+            self.calls += 1;
+            out.transitions += 1;
+            let r = guarded(|| verify_multi_proof_update::<H>(&verified, ops.clone()));
+            match r {
+                Err(m) => {
+                    out.violation = Some(v("panic:huge-multi-proof", format!("verify_multi_proof_update over the {nsib}-sibling multi-proof ({} ops) panicked: {m}", ops.len())));
+                    return out;
+                }
+                Ok(res) => {
+                    if panic_only {
+                        continue;
+                    }
+                    let mut after = leaves.clone();
+                    for (k, o) in &ops {
+                        let idx = after.binary_search_by(|(x, _)| x.cmp(k)).unwrap();
+                        match o {
+                            Some(h) => after[idx].1 = *h,
+                            None => {
+                                after.remove(idx);
+                            }
+                        }
+                    }
+                    let truth = refmodel::root_of_leaves::<H>(&after);
+                    if !matches!(res, Ok(r) if r == truth) {
+                        out.violation = Some(v("multi-update", format!("{nsib}-sibling multi-proof, {} ops: verify_multi_proof_update = {:?}, reference root {}", ops.len(), res.map(|r| hex(&r[..6])), hex(&truth[..6]))));
+                        return out;
+                    }
+                }
+            }
+        }
+        out.sig = fnv_str(&format!("huge:{nsib}"));
+        out.states.push(nsib as u64);
+        out
+    }
+
     fn run_c07_wide(&mut self, case: &Value) -> Outcome {
         let mask = case["s"].as_u64().unwrap() as u32;
         let t = Trie::with_family(family_wide(), mask);
@@ -1585,8 +1704,10 @@ impl Engine for ProofX {
                         }
                     }
                 }
+                // one very wide proof: 32 768 paths, more than 65 535 siblings
+                cases.push(json!({"mode": "huge", "bound": 1}));
                 cases.sort_by_key(|c| c["bound"].as_u64().unwrap());
-                let mut p = Plan::new(cases, format!("proofx: every key set S of ≤{smax} keys from a 12-key family (diverging at bits 0,1,2,6,7,12,255 + a 4-cluster sharing 20 bits) × every non-empty query set Q of ≤{qmax} family keys (present and absent; honest path proofs from the independent reference trie, de-duplicated, ordered) aggregated by MultiProof::from_path_proofs × every sorted write set of ≤{wmax} operations (delete / write) over the keys in scope; oracle: multi-proof verifies, every confirm_* (also _with_index for every index, find_index_for) equals the single-path answer and the truth, verify_multi_proof_update = verify_update = reference root of the updated set. Plus 'wide' cases: a 20-key family minus every subset of ≤2 (thorough ≤3) keys, all 20 keys queried at once (up to 20 terminals in one multi-proof), every write set of 1..2 operations anywhere (written terminals separated by 0..18 untouched ones). Plus comb tries: n ∈ {{3,…,254}} keys b^i·¬b hanging off one spine (both orientations; all present, or every 2nd / 3rd tooth absent), all n queried in one multi-proof whose bisection nests n−1 levels, confirm_* for every key, updates at the first / second / middle / last teeth. One case = one S; bound = |S| (wide: number of removed keys); transitions = (S,Q) and (S,Q,W) combinations checked."));
+                let mut p = Plan::new(cases, format!("proofx: every key set S of ≤{smax} keys from a 12-key family (diverging at bits 0,1,2,6,7,12,255 + a 4-cluster sharing 20 bits) × every non-empty query set Q of ≤{qmax} family keys (present and absent; honest path proofs from the independent reference trie, de-duplicated, ordered) aggregated by MultiProof::from_path_proofs × every sorted write set of ≤{wmax} operations (delete / write) over the keys in scope; oracle: multi-proof verifies, every confirm_* (also _with_index for every index, find_index_for) equals the single-path answer and the truth, verify_multi_proof_update = verify_update = reference root of the updated set. Plus 'wide' cases: a 20-key family minus every subset of ≤2 (thorough ≤3) keys, all 20 keys queried at once (up to 20 terminals in one multi-proof), every write set of 1..2 operations anywhere (written terminals separated by 0..18 untouched ones). Plus comb tries: n ∈ {{3,…,254}} keys b^i·¬b hanging off one spine (both orientations; all present, or every 2nd / 3rd tooth absent), all n queried in one multi-proof whose bisection nests n−1 levels, confirm_* for every key, updates at the first / second / middle / last teeth. Plus one very wide proof: a complete trie of 2^18 leaves, every 8th key proven, the 32 768 path proofs aggregated into one multi-proof with more than 65 535 siblings, verified, queried and updated (write / delete / write at the first key, a key beyond the 16-bit offset boundary and the last key) against the reference root. One case = one S; bound = |S| (wide: number of removed keys); transitions = (S,Q) and (S,Q,W) combinations checked."));
                 p.budget_s = if thorough { 1700 } else { 55 };
                 p.assumptions = vec!["Blake3 hasher; key family of 12; value hashes from two classes per key".into()];
                 p
@@ -1612,6 +1733,8 @@ impl Engine for ProofX {
                 for (m, k) in masks_upto(12, if thorough { 3 } else { 2 }) {
                     cases.push(json!({"mode": "c18serde", "s": m, "bound": k}));
                 }
+                // a multi-proof with more than 65 535 siblings (verdicts only)
+                cases.push(json!({"mode": "huge", "bound": 1, "panic_only": true}));
                 cases.sort_by_key(|c| c["bound"].as_u64().unwrap());
                 let mut p = Plan::new(cases, format!("proofx: every object of the C08 mutation grammar without the 'verifies' filter plus structural extremes (depth ∈ {{0,1,255,256,257,2^63,usize::MAX}}, 255..300 siblings, empty/duplicated/prefix-related path lists, key slices of length 0/3/len/256, operation lists empty/unsorted/duplicated/out-of-scope/all-keys), over every key set S of ≤{smax} keys; each public verifier entry point (PathProof::verify, confirm_*, verify_update, verify_multi_proof, confirm_*_with_index for every valid index, find_index_for, verify_multi_proof_update) is called under catch_unwind in an isolated child process with a timeout; any panic / abort / timeout is a violation, fingerprinted by (entry point, mutation class, panic class). Plus values only a deserialiser can build (nomt-core's serde feature): every honest path proof and every multi-proof over ≤2 and over all keys of every S of ≤2 (thorough 3) keys is serialised, every integer field (terminator depth, node index, multi-path depth) is replaced by each of {{0,1,255,256,257,300,4095,65535}}, and whatever deserialises is fed to every entry point."));
                 p.budget_s = if thorough { 1700 } else { 55 };
@@ -1629,6 +1752,7 @@ impl Engine for ProofX {
             "c07" => self.run_c07(case),
             "c07w" => self.run_c07_wide(case),
             "c07comb" => self.run_c07_comb(case),
+            "huge" => self.run_huge(case["panic_only"].as_bool().unwrap_or(false)),
             "c08" => self.run_c08(case),
             "c18" => self.run_c18(case),
             "c18serde" => self.run_c18_serde(case),
